@@ -9,7 +9,9 @@ package main
 // function of the request it answers (and, for parameterless requests, carries
 // a fresh sequence number in a range that identifies the request kind).
 //   lsq  local-state-query : Acquire(point t) (points with t%5==0 are refused),
-//        GetNonMyopicMemberRewards([t]) -> amount t, GetChainBlockNo -> 1e6+seq,
+//        GetNonMyopicMemberRewards([t]) -> amount t (the query carries the era the client believes in;
+//        the era of the server's state depends on the acquired point: a stale cached era is flagged),
+//        GetChainBlockNo -> 1e6+seq,
 //        GetChainPoint -> slot 2e6+seq; Acquire/Release only by goroutine 0 (Release right after its own
 //        successful Acquire: releasing while nothing is acquired is an API misuse, not a library matter)
 //   ltm  local-tx-monitor  : HasTx(id) -> id[0] odd, NextTx -> tx tagged 0xA7+seq,
@@ -43,7 +45,7 @@ import (
 )
 
 func init() {
-	register(&Prop{ID: "C25", Gen: genC25, Run: runC25, Timeout: 30 * time.Second})
+	register(&Prop{ID: "C25", Gen: genC25, Run: runC25, Timeout: 600 * time.Second})
 }
 
 func genC25(r *Rand, n int, tier string, emit func(string)) {
@@ -287,7 +289,9 @@ func runC25(op string) string {
 		cli := localstatequery.NewClient(l.opts(protocol.ProtocolModeNodeToClient), &cfg)
 		cli.Start()
 		call = func(g int, r *Rand, state *int) c25Verdict {
-			if g == 0 && *state == 1 {
+			// goroutine 0, while it holds an acquired point: release (1/3), re-acquire another
+			// point (1/3) or query the acquired state (1/3)
+			if g == 0 && *state == 1 && r.Chance(1, 3) {
 				*state = 0
 				if err := cli.Release(); err != nil {
 					return errV(err)
@@ -295,6 +299,9 @@ func runC25(op string) string {
 				return c25Verdict{"own", "", -1}
 			}
 			k := r.Intn(5)
+			if g == 0 && *state == 1 {
+				k = Pick(r, 0, 3)
+			}
 			if k == 0 && g != 0 {
 				k = 3 // only goroutine 0 acquires/releases: Release is only legal while acquired
 			}
@@ -309,8 +316,12 @@ func runC25(op string) string {
 				if refused != (t%5 == 0) {
 					return c25Verdict{"foreign", fmt.Sprintf("Acquire(%d)->refused=%v", t, refused), -1}
 				}
-				if g == 0 && !refused {
-					*state = 1
+				if g == 0 {
+					// a refused (re-)acquire leaves nothing acquired
+					*state = 0
+					if !refused {
+						*state = 1
+					}
 				}
 				return c25Verdict{"own", "", -1}
 			case 1:
@@ -343,6 +354,9 @@ func runC25(op string) string {
 							if amt == t {
 								return c25Verdict{"own", "", -1}
 							}
+							if amt == 999999 {
+								return c25Verdict{"foreign", fmt.Sprintf("NonMyopic(%d)->stale-era", t), -1}
+							}
 							return c25Verdict{"foreign", fmt.Sprintf("NonMyopic(%d)->%d", t, amt), -1}
 						}
 					}
@@ -350,6 +364,7 @@ func runC25(op string) string {
 				return c25Verdict{"foreign", fmt.Sprintf("NonMyopic(%d)->shape", t), -1}
 			}
 		}
+		lsqEra := uint64(6) // era of the state the scripted server has acquired
 		serve = func(msg []byte, seq *int64) [][]byte {
 			items := c24Items(msg)
 			if len(items) == 0 {
@@ -373,9 +388,13 @@ func runC25(op string) string {
 				if slot%5 == 0 {
 					return [][]byte{g5enc(localstatequery.NewMsgFailure(localstatequery.AcquireFailurePointTooOld))}
 				}
+				// the era of the ledger state depends on the acquired point: a client that
+				// keeps an era from before the (re-)acquire sends queries for the wrong era
+				lsqEra = 2 + slot%5
 				return [][]byte{g5enc(localstatequery.NewMsgAcquired())}
 			case localstatequery.MessageTypeAcquireVolatileTip, localstatequery.MessageTypeReacquireVolatileTip,
 				localstatequery.MessageTypeAcquireImmutableTip, localstatequery.MessageTypeReacquireImmutableTip:
+				lsqEra = 6
 				return [][]byte{g5enc(localstatequery.NewMsgAcquired())}
 			case localstatequery.MessageTypeRelease:
 				return nil
@@ -403,8 +422,15 @@ func runC25(op string) string {
 						kind, _ = inner[0].(uint64)
 					}
 					if kind == localstatequery.QueryTypeHardFork {
-						result = g5enc(uint64(6)) // current era
+						result = g5enc(lsqEra) // current era of the acquired state
 					} else {
+						// [0, [0, [era, [2, set]]]]: the era the client believes in
+						qEra := uint64(999)
+						if len(inner) > 1 {
+							if e2, ok := inner[1].([]any); ok && len(e2) > 0 {
+								qEra, _ = e2[0].(uint64)
+							}
+						}
 						// the caller's tag is the single element of the tag-258 set
 						var t uint64
 						if i := bytes.Index(msg, []byte{0xd9, 0x01, 0x02}); i >= 0 {
@@ -414,6 +440,9 @@ func runC25(op string) string {
 							}
 						}
 						h := c25Hash28(t)
+						if qEra != lsqEra {
+							t = 999999 // marker: query built for a stale era
+						}
 						res := localstatequery.NonMyopicMemberRewardsResult{
 							localstatequery.StakeCredential{Tag: 0, Bytes: h}: {h: t},
 						}
@@ -435,7 +464,7 @@ func runC25(op string) string {
 	go func() {
 		var seq int64
 		for {
-			msg, err := l.peer.recv(protoId, 30*time.Second)
+			msg, err := l.peer.recv(protoId, 600*time.Second)
 			if err != nil {
 				return
 			}
@@ -490,7 +519,7 @@ func runC25(op string) string {
 	hang := ""
 	select {
 	case <-doneCh:
-	case <-time.After(10 * time.Second):
+	case <-time.After(300 * time.Second):
 		hang = " HANG"
 		l.close()
 		select {
